@@ -61,7 +61,7 @@ res['caught_by'] = caught
 res['target_check_fires'] = prop in caught
 print(json.dumps(res, indent=1))
 if keep:
-    d = f'/verif/seeded/{prop}-{k}'
+    d = f'/verif/seeded/{prop}-{int(k) + int(os.environ.get("SEED_STORE_OFFSET", "0"))}'
     os.makedirs(d, exist_ok=True)
     for f in glob.glob(src + '/*'):
         if os.path.isfile(f): shutil.copy(f, d)
